@@ -378,6 +378,20 @@ Theorem C05_roundtrip_composite : forall z ps first a t o,
 Proof. exact roundtrip_composite. Qed.
 Print Assumptions C05_roundtrip_composite.
 
+(* offset_at_spec on a composite zone, for EVERY instant: the binary search before the last transition,
+   the rule from it on ([rule_hyps a t]: the premises of C05_offset_at_rule), joined by clause (2) of
+   the continuity condition ([roff r tl] = the rule's offset at the last transition) *)
+Theorem C05_offset_at_composite : forall z ps first a tl pv ol t,
+  let r := conv_rule a in
+  let cz := mk_szone (ut_offset first) (offs ps) (Some (inr r)) in
+  table_zone z ps first -> leap_seconds z = [] -> extra_rule z = Some (Alternate a) ->
+  increasing (offs ps) = true -> zlen (transitions z) < 4611686018427387904 ->
+  last_window (offs ps) (ut_offset first) = Some (tl, pv, ol) -> roff r tl = ol ->
+  (tl <= t -> rule_hyps a t) ->
+  exists lt, find_local_time_type z t = Val (Ok lt) /\ zone_off cz t = Some (ut_offset lt).
+Proof. exact offset_at_composite. Qed.
+Print Assumptions C05_offset_at_composite.
+
 (* the hypotheses are inhabited: Europe/Berlin's two transitions of 2023 followed by the footer
    CET-1CEST,M3.5.0,M10.5.0/3 *)
 Theorem C05_composite_example :
@@ -530,6 +544,73 @@ Theorem C05_from_local_values_composite : forall zone ps first a local,
   else v = MNone.
 Proof. exact from_local_values_composite. Qed.
 Print Assumptions C05_from_local_values_composite.
+
+(* Local.from_utc_datetime at value level: the same UTC reading with the offset of the selected type;
+   a panic exactly when that offset is no FixedOffset *)
+Theorem C05_from_utc_values : forall zone utc lt,
+  P4.ndt_ok utc -> find_local_time_type zone (wsecs utc) = Val (Ok lt) ->
+  (off_ok (ut_offset lt) ->
+   from_utc_datetime zone utc = Val (DateTime.mk_dtz utc (ut_offset lt)) /\
+   P4.dtz_ok (DateTime.mk_dtz utc (ut_offset lt))) /\
+  (~ off_ok (ut_offset lt) -> from_utc_datetime zone utc = Panic).
+Proof. exact from_utc_values. Qed.
+Print Assumptions C05_from_utc_values.
+
+(* round trip at value level: instant -> date-time v -> its wall clock w (naive_local) -> date-times:
+   v itself is among them (whenever the wall clock is a supported reading and every candidate's instant
+   is supported) *)
+Theorem C05_roundtrip_values : forall zone utc lt m,
+  P4.ndt_ok utc -> let t := wsecs utc in let o := ut_offset lt in let l := t + o in
+  find_local_time_type zone t = Val (Ok lt) -> off_ok o -> supported l = true ->
+  find_local_time_type_from_local zone (utc_year l) l = Val (Ok m) -> contains m o ->
+  (forall o', contains m o' -> off_ok o') ->
+  forallb supported (cand_instants l m) = true ->
+  exists v w r, from_utc_datetime zone utc = Val v /\ DateTime.dz_utc v = utc /\ DateTime.dz_off v = o /\
+                DateTime.naive_local v = Val w /\ P4.ndt_ok w /\ wsecs w = l /\
+                from_local_datetime zone w = Val r /\ In v (mlt_list r).
+Proof. exact roundtrip_values. Qed.
+Print Assumptions C05_roundtrip_values.
+(* ... end to end on a composite zone: every supported instant t at which the zone data prescribe the
+   offset o, whose wall reading t + o is supported and not an excepted second *)
+Theorem C05_roundtrip_values_composite : forall zone ps first a tl pv ol utc,
+  let r := conv_rule a in
+  let cz := mk_szone (ut_offset first) (offs ps) (Some (inr r)) in
+  let t := wsecs utc in
+  P4.ndt_ok utc ->
+  table_zone zone ps first -> leap_seconds zone = [] -> extra_rule zone = Some (Alternate a) ->
+  alt_ok a -> r_std r <> r_dst r ->
+  increasing (offs ps) = true -> spacing_table (offs ps) (ut_offset first) = true ->
+  zlen (transitions zone) < 4611686018427387904 ->
+  last_window (offs ps) (ut_offset first) = Some (tl, pv, ol) ->
+  footer_continues cz = true -> rule_year_hyps r (footer_year cz) ->
+  (tl <= t -> rule_hyps a t) ->
+  (forall o, In o (zone_offsets cz) -> off_ok o) ->
+  forall o, zone_off cz t = Some o -> let l := t + o in
+  (footer_hi cz < l -> rule_reading_hyps a l) ->
+  excepted_wall cz l = false ->
+  supported l = true -> forallb supported (instants_of_wall cz l) = true ->
+  exists v w res, from_utc_datetime zone utc = Val v /\ DateTime.dz_utc v = utc /\ DateTime.dz_off v = o /\
+                  DateTime.naive_local v = Val w /\ P4.ndt_ok w /\ wsecs w = l /\
+                  from_local_datetime zone w = Val res /\ In v (mlt_list res) /\
+                  map dz_unix (mlt_list res) = instants_of_wall cz l.
+Proof. exact roundtrip_values_composite. Qed.
+Print Assumptions C05_roundtrip_values_composite.
+Theorem C05_roundtrip_values_example :
+  P4.ndt_ok exg_utc /\ wsecs exg_utc = 1729989000 /\ leap_seconds exc_zone = [] /\
+  zlen (transitions exc_zone) < 4611686018427387904 /\
+  last_window (offs ex_ps) (ut_offset ex_cet) = Some (1698541200, 7200, 3600) /\
+  rule_hyps exc_rule 1729989000 /\
+  zone_off exc_cz 1729989000 = Some 7200 /\ supported (1729989000 + 7200) = true /\
+  match from_utc_datetime exc_zone exg_utc with
+  | Val v => DateTime.naive_local v = Val exg_local /\
+             match from_local_datetime exc_zone exg_local with
+             | Val (MAmbiguous x y) => x = v /\ dz_unix y = 1729992600
+             | _ => False
+             end
+  | _ => False
+  end.
+Proof. exact exg_roundtrip. Qed.
+Print Assumptions C05_roundtrip_values_example.
 
 (* inhabited: 2024-10-27T02:30:00 in the Berlin-like composite zone gives two date-times,
    00:30:00Z (+02:00) then 01:30:00Z (+01:00) *)
